@@ -234,7 +234,7 @@ def run(cx):
             outs = ex.run(body, initial_states(cname))
             for st in outs["fall"] + outs["ret"]:
                 run_.consistency(st, ex, "at end")
-            clamp_v = [(k, m) for k, m in run_.viol if "unclamped" in k or "-level" in k or "argument" in k]
+            clamp_v = [(k, m) for k, m in run_.viol if "unclamped" in k or k.endswith("-level") or k.endswith("-argument")]
             shadow_v = [(k, m) for k, m in run_.viol if (k, m) not in clamp_v]
             for k, m in clamp_v:
                 r_clamp.fail(k, (em, em.func("_emit_block")), f"{label}: {m}")
